@@ -80,6 +80,24 @@ def evaluate(op, a, b, how):
     return f, Env(**kw).parse(f)
 
 
+def date_slack(op, a, b, x):
+    """How far the result moves when the serial of each date operand is off by one microsecond (a double holds a date-time of this era to about half a
+    microsecond): twice that is allowed on top of the 1 ms.  For date +- number this is 2 us; it grows where the operation magnifies the operand
+    (number / date with a small serial, date * large number), which is conditioning, not a defect."""
+    eps = Fraction(1, 86400 * 10 ** 6)
+    (lk, lv), (rk, rv) = ra.classify(a), ra.classify(b)
+    worst = Fraction(0)
+    for da in ((-eps, eps) if lk == 'date' else (Fraction(0),)):
+        for db in ((-eps, eps) if rk == 'date' else (Fraction(0),)):
+            l, r = lv + da, rv + db
+            if op == '/' and r == 0:
+                continue
+            y = l + r if op == '+' else l - r if op == '-' else l * r if op == '*' else l / r
+            worst = max(worst, abs(y - x))
+    days = float(2 * worst)
+    return datetime.timedelta(days=min(days, 1.0))
+
+
 def judge_scalar(op, a, b, got):
     """got: a value (may be an XLError object inside arrays) -> None or message"""
     try:
@@ -101,7 +119,7 @@ def judge_scalar(op, a, b, got):
         if x < 61 or x >= 2958466:
             raise Skip('date-result-outside-1mar1900..9999')
         want = rd.from_serial_exact(x)
-        if not isinstance(got, datetime.datetime) or abs(got - want) > datetime.timedelta(milliseconds=1):
+        if not isinstance(got, datetime.datetime) or abs(got - want) > datetime.timedelta(milliseconds=1) + date_slack(op, a, b, x):
             return 'expected the date %s' % want
         return None
     if isinstance(got, bool) or not isinstance(got, (int, float)):
